@@ -13,14 +13,17 @@ Ion == {[mode |-> "ion", diffuse |-> d, continuous |-> cs, trackers |-> tr, plot
                big : B, lum0 : B] : c.lum0 = 1 /\ c.continuous = 0}
 \* first: "first snapshot" (only with snaps = 1); maxb: "maximum number of backups" (only in restart mode)
 \* sn (rhdrad only): the only source is a supernova that goes off at once, so that later radiation steps find no luminous source
+\* rdiff (rhdrad only): 0 = no diffuse field, 1 = "diffuse field: true" with a FixedValue re-emission handler,
+\*   2 = "diffuse field: true" without a handler block (the factory's default type None gives no handler)
 \* aniso: 16x8x8 cells in 2x2x2 subgrids (cells per subgrid differ between the axes) instead of 8x8x8
 Rhd == {[mode |-> m, live |-> lv, ionsurf |-> iv, mask |-> mk, turb |-> tb, snaps |-> sn, first |-> fs, maxb |-> mb,
-         nthr |-> t, aniso |-> an, sn |-> s] :
+         nthr |-> t, aniso |-> an, sn |-> s, rdiff |-> rdf] :
           m \in {"rhd", "rhdrad", "restart"}, lv \in B, iv \in B, mk \in B, tb \in B, sn \in B,
-          fs \in {0, 2, 9}, mb \in {1, 2, 3}, t \in {1, 2, 4}, an \in B, s \in B} \ 
+          fs \in {0, 2, 9}, mb \in {1, 2, 3}, t \in {1, 2, 4}, an \in B, s \in B, rdf \in {0, 1, 2}} \ 
        {c \in [mode : {"rhd", "rhdrad", "restart"}, live : B, ionsurf : B, mask : B, turb : B, snaps : B,
-               first : {0, 2, 9}, maxb : {1, 2, 3}, nthr : {1, 2, 4}, aniso : B, sn : B] :
-            (c.snaps = 0 /\ c.first # 0) \/ (c.mode # "restart" /\ c.maxb # 1) \/ (c.mode = "rhdrad" /\ c.aniso = 1) \/ (c.mode # "rhdrad" /\ c.sn = 1)}
+               first : {0, 2, 9}, maxb : {1, 2, 3}, nthr : {1, 2, 4}, aniso : B, sn : B, rdiff : {0, 1, 2}] :
+            (c.snaps = 0 /\ c.first # 0) \/ (c.mode # "restart" /\ c.maxb # 1) \/ (c.mode = "rhdrad" /\ c.aniso = 1) \/ (c.mode # "rhdrad" /\ c.sn = 1)
+            \/ (c.mode # "rhdrad" /\ c.rdiff # 0)}
 ASSUME PrintT(<<"CONFIGS", ToJson(Ion \cup Rhd)>>)
 VARIABLE x
 Init == x = 0
